@@ -403,6 +403,20 @@ def _is_member_mean(val, var, block=False):
         return 'reduction is %s' % show(val)[:40]
     if kw.get('axis') != C(0) and not (args and args[0] == C(0)):
         return 'mean is not taken over the member axis (axis=0)'
+    # a stack of member blocks built once and sliced per column: np.array([r[:, :k] for r in res])[:, :, i] is
+    # np.array([r[:, :k][:, i] for r in res])  ==  np.array([r[:, i] for r in res])   (i runs below k)
+    FULL_ = ('slice', NONE, NONE, NONE)
+    if arr[0] == 'sub' and arr[2][0] == 'tuple' and len(arr[2][1]) == 3 and arr[2][1][0] == FULL_ and arr[2][1][1] == FULL_ \
+            and arr[1][0] == 'call' and arr[1][1] in ('numpy.array', 'numpy.asarray', 'numpy.stack') and arr[1][2] \
+            and dict(arr[1][3]).get('axis', C(0)) == C(0) and arr[1][2][0][0] == 'comp' and len(arr[1][2][0][3]) == 1:
+        comp_ = arr[1][2][0]
+        bv_ = comp_[3][0][0]
+        elt_ = comp_[2]
+        col_ = arr[2][1][2]
+        if elt_ == bv_ or (elt_[0] == 'sub' and elt_[1] == bv_ and elt_[2][0] == 'tuple' and len(elt_[2][1]) == 2
+                           and elt_[2][1][0] == FULL_ and elt_[2][1][1][0] == 'slice'
+                           and elt_[2][1][1][1] in (NONE, C(0)) and elt_[2][1][1][3] in (NONE, C(1))):
+            arr = ('comp', comp_[1], ('sub', bv_, ('tuple', (FULL_, col_))), comp_[3])
     if arr[0] == 'call' and arr[1] in ('numpy.array', 'numpy.asarray', 'numpy.stack', 'numpy.vstack') and arr[2] \
             and dict(arr[3]).get('axis', C(0)) == C(0):
         arr = arr[2][0]
